@@ -39,6 +39,9 @@ type FibStrategy interface {
 	FindStrategyEnc(name enc.Name) enc.Name
 	InsertNextHopEnc(name enc.Name, nextHop uint64, cost uint64)
 	ClearNextHopsEnc(name enc.Name)
+	// ReplaceNextHopsEnc makes nexthops the complete nexthop list of the prefix in one step:
+	// a concurrent lookup sees the list as it was before or as it is afterwards, nothing in between.
+	ReplaceNextHopsEnc(name enc.Name, nexthops []FibNextHopEntry)
 	RemoveNextHopEnc(name enc.Name, nextHop uint64)
 	GetAllFIBEntries() []FibStrategyEntry
 	SetStrategyEnc(name enc.Name, strategy enc.Name)
